@@ -149,8 +149,8 @@ fn enabled_mask(alphabet: &[Op], ex: &Exec) -> u128 {
     m
 }
 
-fn hist_ops(alphabet: &[Op], hist: &[u16]) -> Vec<Op> {
-    hist.iter().map(|i| alphabet[*i as usize].clone()).collect()
+fn hist_ops(prefix: &[Op], alphabet: &[Op], hist: &[u16]) -> Vec<Op> {
+    prefix.iter().cloned().chain(hist.iter().map(|i| alphabet[*i as usize].clone())).collect()
 }
 
 /// observations compared by the determinism self-check
@@ -161,6 +161,7 @@ fn fingerprint(ex: &Exec) -> String {
 pub fn explore(
     prop: &str,
     cfg: &Cfg,
+    prefix: &[Op],
     alphabet: &[Op],
     depth: usize,
     checker: &dyn Checker,
@@ -173,7 +174,7 @@ pub fn explore(
     let mut viols: BTreeMap<String, Violation> = BTreeMap::new();
     let mut seen: HashSet<u128> = HashSet::new();
     // initial state
-    let ex0 = sess::run(cfg, &[], &plan);
+    let ex0 = sess::run(cfg, prefix, &plan);
     if let Some((_, msg)) = &ex0.panic {
         viols.insert(
             "init/panic".into(),
@@ -196,7 +197,7 @@ pub fn explore(
         );
         return (stats, viols.into_values().collect());
     }
-    for (sig, msg) in checker.check(cfg, &[], &ex0) {
+    for (sig, msg) in checker.check(cfg, prefix, &ex0) {
         viols.entry(sig.clone()).or_insert(Violation {
             prop: prop.into(),
             sig,
@@ -234,7 +235,7 @@ pub fn explore(
                 }
                 let mut hist = frontier[*ni].hist.clone();
                 hist.push(*oi);
-                let ops = hist_ops(alphabet, &hist);
+                let ops = hist_ops(prefix, alphabet, &hist);
                 let ex = sess::run(cfg, &ops, &plan);
                 let mut v = checker.check(cfg, &ops, &ex);
                 let mut nondet = None;
@@ -277,7 +278,7 @@ pub fn explore(
                         sig,
                         msg,
                         cfg: cfg.name.clone(),
-                        hist: hist_ops(alphabet, &o.node.hist),
+                        hist: hist_ops(prefix, alphabet, &o.node.hist),
                         extra: String::new(),
                         count: 0,
                     });
